@@ -4,7 +4,11 @@ From Coq Require Import List Bool NArith Lia.
 From Coq Require Import Sorting.Permutation Sorting.Sorted.
 From Coq Require Import Strings.Byte.
 From Verif Require Import Base.Bytes Base.Hex Generated.SrcConsts Model.Uri Model.Query Spec.PathSpec Spec.QuerySpec.
-From Verif Require Import Proofs.QueryProofs.
+From Coq Require Import List Bool NArith Arith Lia.
+From Verif Require Import Base.Bytes Base.Hex Generated.SrcConsts Model.Uri Model.UriImp.
+From Verif Require Import Proofs.PathProofs.
+From Verif Require Import Proofs.QueryProofs Proofs.UriImpProofs.
+Local Open Scope byte_scope.
 
 Theorem C10_sort_pairs_perm :
   forall l, Permutation (sort_pairs l) l.
@@ -68,3 +72,9 @@ Theorem C10_query_map_flatten_perm :
              /\ Permutation (flatten m) ps.
 Proof. exact QueryProofs.query_map_flatten_perm. Qed.
 Print Assumptions C10_query_map_flatten_perm.
+
+Theorem C10_normalize_elem_imp_correct :
+  forall s,
+  normalize_elem_imp s = Done (normalize_elem s).
+Proof. exact UriImpProofs.normalize_elem_imp_correct. Qed.
+Print Assumptions C10_normalize_elem_imp_correct.
